@@ -367,7 +367,12 @@ def update_parameters(json_object, parameters) -> None:
                     if key not in ('id', 'type', 'dtype', 'nn'):
                         del json_object[key]
                 # set new tensor
-                json_object['tensor'] = parameters[json_object['id']]['tensor']
+                saved = parameters[json_object['id']]
+                json_object['tensor'] = saved['tensor']
+                # the definition that was removed (e.g. zeros_like) may have been
+                # what determined the data type: use the one that was saved
+                if 'dtype' in saved:
+                    json_object['dtype'] = saved['dtype']
         else:
             for value in json_object.values():
                 update_parameters(value, parameters)
